@@ -429,7 +429,10 @@ def rule_r6(repo, run):
                         text = re.sub(r"^[-+#^@]+", "", seg)
                         fields = re.findall(r"\{(\w+)\}", text)
                         if any(f in SELF_BREAKING for f in fields):
-                            continue
+                            # the field brings break hints of its own; what stands in front of it in the same piece
+                            # still has to fit (the field is taken to be breakable from its first character on)
+                            text = re.split(r"\{(?:%s)\}" % "|".join(sorted(SELF_BREAKING)), text)[0]
+                            fields = re.findall(r"\{(\w+)\}", text)
                         size = len(re.sub(r"\{\w+\}", "", text).replace("{{", "{").replace("}}", "}"))
                         for f in fields:
                             b = FIELD_BOUND.get(f)
@@ -528,6 +531,25 @@ def rule_r7(repo, run):
                               wfm.loc(j))
     if nu < 3:
         raise AnalysisError("C13.R7: use/import name lists not found in wrapf (%d)" % nu)
+    # a procedure header `subroutine NAME(args) bind(C, name="CNAME")` holds two generated names (prefixes are the user's):
+    # the bind clause stands behind a break hint or on a line of its own
+    nb = 0
+    for mn in ("wrapf", "whelpers", "statements"):
+        m = repo.module(mn)
+        for node in ast.walk(m.tree):
+            if isinstance(node, ast.Constant) and isinstance(node.value, str) and "bind(C" in node.value:
+                for line in node.value.split("\n"):
+                    mm_ = re.search(r"\b(subroutine|function)\b[^\n]*?bind\(C", line)
+                    if not mm_ or line.lstrip().startswith(("!", "//", "end ")):
+                        continue
+                    nb += 1
+                    head = line[:line.index("bind(C")]
+                    run.check(R, "%s:bind-clause@%s" % (mn, re.sub(r"\s+", " ", line.strip())[:40]), head.rstrip(" ").endswith("\t")
+                              or "\t" in head[head.rfind(")"):],
+                              "the header `%s` has no break hint in front of `bind(C, ...)`: with a long C_prefix the line exceeds "
+                              "132 columns and cannot be continued" % line.strip()[:60], m.loc(node))
+    if nb < 2:
+        raise AnalysisError("C13.R7: procedure headers with a bind(C) clause not found (%d)" % nb)
     # comma lists of dummy arguments are joined with a break hint
     wf = repo.module("wrapf")
     nj = 0
